@@ -65,8 +65,11 @@ def dump(include, workdir, compiler="clang++"):
                 continue
             helpers = {}
             for m in spec.get("inner", []):
-                if m.get("kind") == "CXXMethodDecl" and any(x.get("kind") == "CompoundStmt" for x in m.get("inner", [])):
-                    helpers[m.get("id")] = m
+                cands = [m] if m.get("kind") == "CXXMethodDecl" else \
+                        [x for x in m.get("inner", []) if x.get("kind") == "CXXMethodDecl"] if m.get("kind") == "FunctionTemplateDecl" else []
+                for x in cands:
+                    if any(y.get("kind") == "CompoundStmt" for y in x.get("inner", [])):
+                        helpers[x.get("id")] = x
             for m in spec.get("inner", []):
                 if m.get("kind") != "FunctionTemplateDecl" or m.get("name") not in OPS:
                     continue
@@ -171,10 +174,20 @@ class Tr:
             sub.env[p["name"]] = self.value(a, p.get("type", {}))
         body = [y for y in h["inner"] if y.get("kind") == "CompoundStmt"][0]
         sub.stmt(body)
+        ret = None
         for st in sub.out:
             if st[0] == "ret":
-                raise Unknown("value-returning helper used as a statement: " + str(callee))
-            self.out.append(st)
+                ret = st[1]
+            else:
+                self.out.append(st)
+        return ret
+
+    def inline_value(self, n, callee, args):
+        """a helper that returns a value, used inside an expression: its checks are taken over in place, its value substituted"""
+        r = self.inline(n, callee, args)
+        if r is None:
+            raise Unknown("helper without a value used in an expression: " + str(callee))
+        return r
 
     # ---- helpers on nodes
     def strip(self, n):
@@ -254,6 +267,8 @@ class Tr:
             raise Unknown("reference to " + str(name))
         if k == "CXXMemberCallExpr" and self.this_raw(n):
             return ("ptr",)
+        if k == "CXXMemberCallExpr":
+            return self.inline_value(n, self.callee(n), self.args(n))
         if k == "CallExpr":
             callee = self.callee(n)
             a = self.args(n)
@@ -263,7 +278,10 @@ class Tr:
                 return self.expr(a[0])
             if callee in ("forward", "move", "as_const", "remove_volatile_from_ptr_cast") and len(a) == 1:
                 return self.expr(a[0])
-            raise Unknown("call in expression: " + str(callee))
+            try:
+                return self.inline_value(n, callee, a)
+            except Unknown as ex:
+                raise Unknown("call in expression: %s (%s)" % (callee, ex))
         if k == "CXXOperatorCallExpr":
             # *wrapper : the object the tainted pointer designates — the same address
             callee = self.callee(n)
@@ -321,6 +339,8 @@ class Tr:
             if callee == "is_in_same_sandbox" and len(a) == 2:
                 return ("same", self.expr(a[0]), self.expr(a[1]))
             raise Unknown("call in condition: " + str(callee))
+        if k == "CXXMemberCallExpr":
+            raise Unknown("member call in condition: " + str(self.callee(n)))
         if k == "ImplicitCastExpr" and n.get("castKind") == "PointerToBoolean":
             return ("cmp", "KNe", self.expr(n["inner"][0]), ("null",))
         if k == "ImplicitCastExpr" and n.get("castKind") == "IntegralToBoolean":
